@@ -71,6 +71,21 @@ add("C10", "E2-histories",
     "Two genuine defects around switching the core id features of a SolutionTracks are recorded in known_findings.json (KF-C10-*) and reported as KNOWN-FINDING; everything outside those two history classes is reported as VIOLATION.",
     E2M, "DESIGN.md 4 C10")
 
+E3M = "small-scope exhaustive enumeration of all inputs up to a size bound, each executed on the real function and compared with a brute-force reference (bounded model checking of a pure function by explicit enumeration)"
+
+add("C13", "E3-smallscope",
+    "All label arrays of shape 2x1x3 over labels {0..2} (quick) / {0..3} (thorough) x all non-empty subsets of the (time,label) pairs present x all injective assignments to node ids {0..3}/{0..4} (identity, permutations and chains such as 1->2,2->1, ids equal to other labels, label reuse across frames, unlisted labels, id 0) through relabel_segmentation directly and through tracks_from_df(df, segmentation) (which adds the 'ids equal => fast path'); oracle: per-pixel out[t,p] = node(t,in[t,p]) (+1 if id 0 present, graph shifted too), background elsewhere, input not modified.",
+    "Bounded array shape and id range; pandas/dask trusted.", E3M, "DESIGN.md 4 C13")
+add("C17", "E3-smallscope",
+    "All ordered lists of <=3 (quick) / <=4 (thorough; 16-name vocabulary, plus <=3 over all 24) distinct column names from a vocabulary built from the code's own key, display-name and value-name tables plus case variants and unrelated names, x required-key sets {[time],[time,id,parent_id]} x ndim {3,4}; same for edge maps (<=5 names of 8). Oracle: flattened values of the returned map == the input columns, each exactly once, none invented; a column spelled like a required key or seg_id maps to that key.",
+    "Vocabulary-bounded; difflib behaviour trusted.", E3M, "DESIGN.md 4 C17")
+add("C18", "E3-smallscope",
+    "All multisets of <=4 (quick) / <=5 (thorough) points on the lattice frames {0..3} x positions {0..3} (embedded in 2-D and 3-D, with and without anisotropic scale) x max distance {1,1.5,2}, and all label arrays 4x1x3 with globally unique labels from <=3/4 detections with IoU requested: every pattern of empty frames and gaps occurs. Oracle: nodes = detections with time/scaled centroid/area, edge iff next frame and distance <= max (exact on the integer lattice), IoU by pixel counting.",
+    "Lattice-bounded; scipy KDTree and skimage.regionprops trusted.", E3M, "DESIGN.md 4 C18")
+add("C19", "E3-smallscope",
+    "ensure_unique_labels on all 65 536 arrays 4x1x2 over {0,1,2,5} and all multi-hypothesis arrays 2x2x1x2 (thorough: also 3x1x3 over {0,1,3}): no label in two frames/hypotheses, per-frame partition and background unchanged, input not modified. relabel_segmentation_with_track_id on all labelled forests <=4/5 nodes x {labels = ids, labels reused across frames} x {with / without a detection missing from the solution}: same label iff same maximal unbranched segment, non-solution detections removed.",
+    "Bounded shapes and label values.", E3M, "DESIGN.md 4 C19")
+
 NOT_APPLICABLE = {}
 
 PENDING_REASON = "check not built yet in this round (planned, see DESIGN.md section 4); not claimed until its command exists"
